@@ -146,10 +146,15 @@ func liveHistoryOn(openEnv func() (*hEnv, error), p *hProfile, mk func() []hOrac
 		n := rapid.IntRange(minSteps, maxSteps).Draw(t, "nsteps")
 		steps := bson.A{}
 		mkCase := func() bson.D { return bson.D{{Key: "profile", Value: p.name}, {Key: "steps", Value: steps}} }
+		trk := newOIDTracker()
 		for i := 0; i < n; i++ {
 			step := p.genStep(t, r.view())
 			steps = append(steps, step)
-			if err := r.doStep(step); err != nil {
+			err := r.doStep(step)
+			if ids := trk.fresh(env.engine.Catalog()); len(ids) > 0 {
+				steps[len(steps)-1] = append(step[:len(step):len(step)], bson.E{Key: "oids", Value: ids})
+			}
+			if err != nil {
 				return mkCase(), err
 			}
 		}
@@ -176,8 +181,13 @@ func runHistoryOn(openEnv func() (*hEnv, error), mk func() []hOracle, nt func(r 
 		}
 		defer env.close()
 		r := &hRun{env: env, x: x, oracles: mk(), effectiveWrites: map[string]int{}}
+		trk := newOIDTracker()
 		for _, s := range asA(getD(c, "steps")) {
-			if err := r.doStep(asD(s)); err != nil {
+			rec := getD(asD(s), "oids")
+			step := trk.subst(withoutKey(asD(s), "oids")).(bson.D)
+			err := r.doStep(step)
+			trk.learn(rec, env.engine.Catalog())
+			if err != nil {
 				return err
 			}
 		}
